@@ -186,7 +186,7 @@ func ruleR29(c *Ctx) {
 		})
 	}
 	c.r.note("R29: %d functions reachable from query entry points; %d stores and %d writing calls classified", nUnits, nStores, nCalls)
-	if nUnits < 40 {
+	if nUnits < 20 {
 		c.r.undecided("R29", "coverage-floor query-reachable functions", "-", fmt.Sprintf("only %d functions reachable from the query entry points", nUnits), "C15")
 	}
 	// a positive statement per kind so that the property never passes vacuously
